@@ -272,9 +272,9 @@ def conditions(tier):
                                      about=f"{ck} client, symbolic state of the {f} vector, handshake, then {op} with symbolic arguments",
                                      encodes=ENC, bounds="1 operation", timeout=1800))
     if thorough:
-        for f in ("txt", "sw"):
+        for f in ("txt",):
             out.append(Condition(f"converge2/{f}/single", make_condition(converge(f, "single", [("enable-vector", "enable-group", "state"), ("assign", "client-write", "enable-group")]), 4, 10, 8),
-                                 about="two symbolic operations (3 x 3 kinds)", encodes=ENC, bounds="2 operations", timeout=3600))
+                                 about="two symbolic operations (3 x 3 kinds)", encodes=ENC, bounds="2 operations", timeout=900))
     return out
 
 
